@@ -80,6 +80,30 @@ func c17Gen(r *Rand, tier string, emit func(op any)) {
 		}
 		c17Partitions(s, emit)
 	}
+	// very long lines (around and beyond 64 KiB, 1 MiB in the thorough tier) delivered in chunks of several sizes
+	longLens := []int{65535, 65536, 65537, 70000}
+	if tier == "thorough" {
+		longLens = append(longLens, 131072, 200000, 1<<20+3)
+	}
+	for _, ll := range longLens {
+		for _, chunk := range []int{4096, 1000, 65536, ll + 1} {
+			line := make([]byte, ll)
+			for q := range line {
+				line[q] = byte('a' + (q*7+ll)%26)
+			}
+			stream := append(append([]byte("x\n"), line...), []byte("\ntail")...)
+			steps := []c17Step{}
+			for off := 0; off < len(stream); off += chunk {
+				end := off + chunk
+				if end > len(stream) {
+					end = len(stream)
+				}
+				h := hx(stream[off:end])
+				steps = append(steps, c17Step{W: &h})
+			}
+			emit(c17Op{K: "session", Steps: steps})
+		}
+	}
 	// random sessions with empty writes, syncs, level toggles, long lines, arbitrary bytes
 	for i := 0; i < nRandom; i++ {
 		steps := []c17Step{}
